@@ -448,6 +448,24 @@ def directed_valid(start_id):
                 out.append({"id": k, "channels": 2, "bps": 32, "rate": 44100, "ratecode": "table", "bpscode": "hdr", "variable": False,
                             "total_known": True, "md5": "good", "subset": True, "class": None,
                             "frames": [{"bs": bs, "chassign": assign, "subs": subs, "bscode": "auto", "overlong": 0}], "pcm": [L, R]})
+    # a signal that runs smoothly into a rail and stays there: predictors of order 2 and more overshoot the range of a sample (2 x[n-1] -
+    # x[n-2] > max) while every sample and every residual fits - the prediction has no range of its own in the format
+    for bps in (32, 32, 31, 24, 16):
+        lo, hi = -(1 << (bps - 1)), (1 << (bps - 1)) - 1
+        for rail in (hi, lo):
+            for kind, order, extra in (("fixed", 2, {}), ("fixed", 3, {}), ("fixed", 4, {}),
+                                       ("lpc", 2, {"precision": 4, "shift": 1, "coefs": [4, -2]}), ("lpc", 3, {"precision": 7, "shift": 4, "coefs": [48, -48, 16]}),
+                                       ("lpc", 2, {"precision": 15, "shift": 13, "coefs": [16383, -8192]})):
+                step = max(1, (hi // 5) if order < 4 else (hi // 12))
+                sgn = 1 if rail == hi else -1
+                ramp = [rail - sgn * step * (6 - i) for i in range(6)]
+                pcm = ramp + [rail] * 6 + [rail - sgn * (step // 3)] + [rail] * 3
+                bs = len(pcm)
+                k += 1
+                sub = dict({"type": kind, "wasted": 0, "order": order, "method": 1, "po": 0, "params": [["rice", min(30, bps - 2)]]}, **extra)
+                out.append({"id": k, "channels": 1, "bps": bps, "rate": 44100, "ratecode": "table", "bpscode": "hdr" if bps in TABLE_BPS else "si", "variable": False,
+                            "total_known": True, "md5": "good", "subset": False, "class": None,
+                            "frames": [{"bs": bs, "chassign": "indep", "subs": [sub], "bscode": "auto", "overlong": 0}], "pcm": [pcm]})
     for p in out:
         del p["class"]
     return out
